@@ -10,6 +10,8 @@ use std::time::{Duration, Instant};
 pub struct StepViolation {
     pub clause: String,
     pub detail: String,
+    /// optional canonical shape (e.g. command word + failing call site); default = the history
+    pub shape: Option<String>,
 }
 
 pub trait SeqModel: Sync {
@@ -29,6 +31,10 @@ pub trait SeqModel: Sync {
     fn is_leaf(&self, _letter: usize, _depth: usize) -> bool {
         false
     }
+    /// histories the search starts from (non-initial start states); depth counts from them
+    fn roots(&self) -> Vec<Vec<usize>> {
+        vec![vec![]]
+    }
 }
 
 pub struct SeqConfig {
@@ -43,6 +49,7 @@ pub struct FoundViolation {
     pub clause: String,
     pub detail: String,
     pub history: Vec<usize>,
+    pub shape: Option<String>,
 }
 
 pub struct SeqResult {
@@ -85,13 +92,15 @@ pub fn explore<M: SeqModel>(m: &M, cfg: &SeqConfig) -> SeqResult {
     let leaf_states = AtomicU64::new(0);
     let cap_hit: Mutex<Option<String>> = Mutex::new(None);
 
-    {
-        let w = m.new_world();
-        visited.lock().unwrap().insert(hash128(&m.key(&w)));
-        m.drop_world(w);
+    let mut frontier: Vec<Vec<usize>> = vec![];
+    for r in m.roots() {
+        let (vs, k) = run_history(m, &r);
+        assert!(vs.iter().all(|v| v.is_empty()), "root history {:?} already violates: {:?}", r, vs.iter().flatten().map(|v| v.detail.clone()).collect::<Vec<_>>());
+        if visited.lock().unwrap().insert(hash128(&k)) {
+            frontier.push(r);
+        }
     }
-    let mut frontier: Vec<Vec<usize>> = vec![vec![]];
-    let mut frontier_sizes = vec![1usize];
+    let mut frontier_sizes = vec![frontier.len()];
     let mut samples: Vec<Vec<usize>> = vec![];
     let mut depth_completed = 0;
     let workers = if cfg.workers == 0 {
@@ -108,14 +117,18 @@ pub fn explore<M: SeqModel>(m: &M, cfg: &SeqConfig) -> SeqResult {
         let next: Mutex<Vec<Vec<usize>>> = Mutex::new(vec![]);
         let idx = AtomicUsize::new(0);
         let fr = &frontier;
+        // work items = (history, chunk of letters): small frontiers are still spread over all workers
+        let chunks_per_hist = ((workers * 4) / fr.len().max(1)).clamp(1, (nl / 4).max(1));
+        let chunk_len = (nl + chunks_per_hist - 1) / chunks_per_hist;
+        let n_items = fr.len() * chunks_per_hist;
         std::thread::scope(|s| {
-            for _ in 0..workers.min(fr.len()).max(1) {
+            for _ in 0..workers.min(n_items).max(1) {
                 s.spawn(|| loop {
                     if stop.load(Ordering::Relaxed) {
                         break;
                     }
-                    let i = idx.fetch_add(1, Ordering::Relaxed);
-                    if i >= fr.len() {
+                    let item = idx.fetch_add(1, Ordering::Relaxed);
+                    if item >= n_items {
                         break;
                     }
                     if start.elapsed() > cfg.budget {
@@ -124,11 +137,16 @@ pub fn explore<M: SeqModel>(m: &M, cfg: &SeqConfig) -> SeqResult {
                         stop.store(true, Ordering::Relaxed);
                         break;
                     }
-                    let hist = &fr[i];
+                    let hist = &fr[item / chunks_per_hist];
+                    let lo = (item % chunks_per_hist) * chunk_len;
+                    let hi = (lo + chunk_len).min(nl);
+                    if lo >= hi {
+                        continue;
+                    }
                     let mut w = replay(m, hist, &transitions);
                     let k0 = m.key(&w);
                     let mut local_next = vec![];
-                    for l in 0..nl {
+                    for l in lo..hi {
                         if !m.enabled(&w, l) {
                             continue;
                         }
@@ -146,6 +164,7 @@ pub fn explore<M: SeqModel>(m: &M, cfg: &SeqConfig) -> SeqResult {
                                         clause: v.clause,
                                         detail: v.detail,
                                         history: h.clone(),
+                                        shape: v.shape,
                                     });
                                 }
                             }
@@ -172,15 +191,13 @@ pub fn explore<M: SeqModel>(m: &M, cfg: &SeqConfig) -> SeqResult {
                                         use std::io::Write;
                                         let _ = writeln!(f.lock().unwrap(), "{}", k1);
                                     }
-                                }
-                                if inserted {
                                     let mut h = hist.clone();
                                     h.push(l);
                                     local_next.push(h);
                                 }
                             }
                         }
-                        if dirty && l + 1 < nl {
+                        if dirty && l + 1 < hi {
                             m.drop_world(w);
                             w = replay(m, hist, &transitions);
                         }
@@ -242,4 +259,85 @@ pub fn run_history<M: SeqModel>(m: &M, hist: &[usize]) -> (Vec<Vec<StepViolation
 
 pub fn names(letters: &[String], hist: &[usize]) -> Vec<String> {
     hist.iter().map(|&i| letters[i].clone()).collect()
+}
+
+
+/// No-merge mode: every history of exactly `depth` letters over the sub-alphabet `sub` is executed
+/// from scratch (oracle evaluated at every step; a history stops at its first violation). No state
+/// key is consulted, so implementation state the key does not know about (a cache, a counter)
+/// cannot be merged away. Cost: depth * |sub|^depth transitions.
+pub fn explore_all_histories<M: SeqModel>(m: &M, prefix: &[usize], sub: &[usize], depth: usize, workers: usize, budget: Duration) -> SeqResult {
+    let start = Instant::now();
+    let n = sub.len() as u64;
+    let total: u64 = n.pow(depth as u32);
+    let idx = AtomicU64::new(0);
+    let transitions = AtomicU64::new(0);
+    let done = AtomicU64::new(0);
+    let violations: Mutex<Vec<FoundViolation>> = Mutex::new(vec![]);
+    let seen_viol: Mutex<HashSet<Vec<usize>>> = Mutex::new(HashSet::new());
+    let cap: Mutex<Option<String>> = Mutex::new(None);
+    let workers = if workers == 0 { std::thread::available_parallelism().map(|n| n.get()).unwrap_or(4) } else { workers };
+    let chunk = 64u64;
+    std::thread::scope(|s| {
+        for _ in 0..workers {
+            s.spawn(|| loop {
+                let lo = idx.fetch_add(chunk, Ordering::Relaxed);
+                if lo >= total {
+                    break;
+                }
+                if start.elapsed() > budget {
+                    *cap.lock().unwrap() = Some(format!("time budget {:?} after {} of {} histories", budget, done.load(Ordering::Relaxed), total));
+                    break;
+                }
+                for code in lo..(lo + chunk).min(total) {
+                    let mut c = code;
+                    let mut hist = Vec::with_capacity(depth);
+                    for _ in 0..depth {
+                        hist.push(sub[(c % n) as usize]);
+                        c /= n;
+                    }
+                    hist.extend(prefix.iter().rev().cloned());
+                    hist.reverse();
+                    let mut w = m.new_world();
+                    for (i, &l) in hist.iter().enumerate() {
+                        if !m.enabled(&w, l) {
+                            break;
+                        }
+                        let vs = m.step(&mut w, l);
+                        transitions.fetch_add(1, Ordering::Relaxed);
+                        if !vs.is_empty() {
+                            let h = hist[..=i].to_vec();
+                            if seen_viol.lock().unwrap().insert(h.clone()) {
+                                let mut g = violations.lock().unwrap();
+                                for v in vs {
+                                    if g.len() < 20000 {
+                                        g.push(FoundViolation { clause: v.clause, detail: v.detail, history: h.clone(), shape: v.shape });
+                                    }
+                                }
+                            }
+                            break;
+                        }
+                    }
+                    m.drop_world(w);
+                    done.fetch_add(1, Ordering::Relaxed);
+                }
+            });
+        }
+    });
+    let mut vs = violations.into_inner().unwrap();
+    vs.sort_by_key(|v| (v.history.len(), v.history.clone()));
+    let cap = cap.into_inner().unwrap();
+    let d = done.load(Ordering::Relaxed);
+    SeqResult {
+        states: d,
+        transitions: transitions.load(Ordering::Relaxed),
+        histories: d,
+        depth_completed: if cap.is_none() { depth } else { 0 },
+        exhausted_bound: cap.is_none(),
+        frontier_sizes: vec![],
+        violations: vs,
+        samples: vec![sub.iter().cycle().take(depth).cloned().collect()],
+        cap_hit: cap,
+        leaf_successors: 0,
+    }
 }
